@@ -134,6 +134,12 @@ func (e *FEnc) instr(st *State, b *ssa.BasicBlock, idx int, in ssa.Instruction) 
 		if at, ok := x.X.Type().Underlying().(*types.Array); ok {
 			e.safetyOb(st, "idx", in, x.X.Name()+"["+x.Index.Name()+"]", fmt.Sprintf("(and (<= 0 %s) (< %s %d))", i, i, at.Len()))
 			e.define(x, e.project(base, []PathEl{{Field: -1, Index: i}}))
+		} else if isString(x.X.Type()) {
+			s := e.term(base)
+			e.safetyOb(st, "idx", in, x.X.Name()+"["+x.Index.Name()+"]", fmt.Sprintf("(and (<= 0 %s) (< %s (len_s %s)))", i, i, s))
+			t := fmt.Sprintf("(at_s %s %s)", s, i)
+			e.fact(fmt.Sprintf("(and (<= 0 %s) (<= %s 255))", t, t))
+			e.define(x, &Val{Ty: x.Type(), Sort: "Int", T: t})
 		} else {
 			e.define(x, e.newVal(x.Type(), "idx"))
 		}
